@@ -62,8 +62,15 @@ m = {
   "add_only": True,
  },
  "engines": [
-  {"name": "histmon", "path": "harness/cmd/vmon/histmon.go", "serves_properties": sorted(k for k, v in checks.items() if v[0] == H),
-   "kind_free_text": "sequential reference-model monitor: seeded random API histories against real klevdb, oracle = harness/ref model + reference codec"},
+  {"name": e, "path": pth, "serves_properties": sorted(k for k, v in checks.items() if v[0] == e), "kind_free_text": txt}
+  for e, pth, txt in [
+   ("histmon", "harness/cmd/vmon/histmon.go", "sequential reference-model monitor: seeded random API histories against real klevdb; oracle = harness/ref model + reference codec; observations through the public API and the files at quiescent points"),
+   ("fmtmon", "harness/cmd/vmon/fmtmon.go", "codec differential monitor (klevdb writers/readers/mmap/Open vs the independent reference codec), followed by histmon's Stat/Size/disk-audit clauses"),
+   ("lockmon", "harness/cmd/vmon/lockmon.go", "exhaustive open/close/publish sequences against a lock-state automaton, cross-process holder, read-only vs read-write differential sessions"),
+   ("dmgmon", "harness/cmd/vmon/dmgmon.go", "damage-injection monitor: enumerated damages of segment files, real Recover/Check/read calls judged against the reference parser"),
+   ("crashmon", "harness/cmd/vmon/crashmon.go", "syscall-trace monitor: workloads recorded under strace, every crash point / torn append / tail-loss image rebuilt by harness/fstrace and recovered by the real code"),
+   ("concmon", "harness/cmd/vmon/conc_c08.go", "concurrency monitor under the Go race detector: pause-window scenarios through pkg/vhook, perturbed free-running histories, stress children; stream monitors + porcupine linearizability + goroutine wait states"),
+  ]
  ],
  "checks": [],
  "not_applicable": [{"property_id": k, "reason": v} for k, v in sorted(pending.items()) if k not in checks],
